@@ -182,6 +182,21 @@ Definition paint (text_mode : bool) (num_attr fg : Z) (v : bounds) (m : bitmap)
 (* canonical output for the correspondence harness: 0 :: all pixels of the bitmap, row by row *)
 Definition enc_paint (r : res bitmap) : list Z := enc_res (rmap (fun m => concat (rows m)) r).
 
+(* ---- helpers for full-screen correspondence cases only (not used by the theorems): the picture is given
+   as filled rectangles (x, y, w, h, attribute) drawn in order on a blank screen, the result is compared by a
+   rolling checksum instead of pixel by pixel *)
+Definition blank_bitmap (w h : nat) : bitmap := mkBitmap 0 0 (repeat (repeat 0 w) h).
+Fixpoint fill_rows (m : bitmap) (y : Z) (n : nat) (xl xr a : Z) : bitmap :=
+  match n with
+  | O => m
+  | S k => fill_rows (fill_range m y xl xr a) (y + 1) k xl xr a
+  end.
+Definition draw_rects (m : bitmap) (rs : list (Z * Z * Z * Z * Z)) : bitmap :=
+  fold_left (fun m r => let '(x, y, w, h, a) := r in fill_rows m y (Z.to_nat h) x (x + w - 1) a) rs m.
+Definition digest (m : bitmap) : Z :=
+  fold_left (fun acc p => (acc * 31 + p + 1) mod 1000000007) (concat (rows m)) 0.
+Definition enc_digest (r : res bitmap) : list Z := enc_res (rmap (fun m => [digest m]) r).
+
 (* ================= specification ================= *)
 
 (* a cell inside the viewport that is not a border cell *)
